@@ -206,11 +206,38 @@ def run(chk):
     wcls = need_class(mlw, 'LayeredWorld')
     wre = methods(wcls).get('reinit')
     if wre is None: raise AnalysisError('LayeredWorld.reinit vanished')
-    acc = [n for n in ast.walk(wre) if isinstance(n, ast.AugAssign) and isinstance(n.op, ast.Add) and ast.unparse(n.value) == 'layer.mass']
-    use = [n for n in ast.walk(wre) if isinstance(n, ast.If) and ast.unparse(n.test) == 'self.mass is None' and any(isinstance(s, ast.Assign) and acc and ast.unparse(s.value) == ast.unparse(acc[0].target) for s in n.body)]
-    in_loop = acc and any(isinstance(l, ast.For) and ast.unparse(l.iter) == 'self.layers' and any(a is x for x in ast.walk(l) for a in acc) for l in ast.walk(wre))
-    chk.ob('R16.3', 'LayeredWorld.reinit: when the world mass is not configured it is the running sum of layer masses over self.layers', bool(acc and use and in_loop),
-           'accumulation over self.layers or its use under `self.mass is None` not found', mlw.where(wre), method='AST def-use')
+    # interpreted on an abstract world with three stub layers: the mass handed to the world's own set_geometry is the sum of the layer masses when the
+    # configuration states none, and the configured mass otherwise (independent of how the method names or accumulates things)
+    for configured in (False, True):
+        wm = [X.atom(f'world_layer_mass{i}', 'pos') for i in range(3)]
+        Mcfg = X.atom('M_configured', 'pos')
+        seen = {}
+
+        def expr_hook2(itp, e, fr):
+            if isinstance(e, ast.Call) and isinstance(e.func, ast.Attribute) and isinstance(e.func.value, ast.Call) and isinstance(e.func.value.func, ast.Name) and e.func.value.func.id == 'super':
+                return Opaque('parent reinit')                # nothing the mass depends on
+            if isinstance(e, ast.Call) and ast.unparse(e.func) in ('np.concatenate', 'numpy.concatenate'):
+                return [Opaque('concatenated slices')]
+            return NotImplemented
+
+        def setgeo(*args, **kwargs):
+            seen['args'] = args; seen['kwargs'] = kwargs
+        lays = tuple(Obj(name=f'L{i}', attrs={'mass': wm[i], 'is_tidal': False, 'tidal_scale': X.ZERO, 'reinit': (lambda *a_, **k_: None), **{q: Opaque(q) for q in
+                     ('radii', 'volume_slices', 'sa_slices', 'depths', 'mass_slices', 'mass_below_slices', 'density_slices', 'gravity_slices')}}) for i in range(3))
+        cfgd = {'radius': X.atom('R_world', 'pos'), 'layers': {}}
+        if configured: cfgd['mass'] = Mcfg
+        wobj = Obj(cls=('class', mlw, wcls), name='world', attrs={'config': cfgd, '_config': cfgd, 'layers': lays, '_layers': lays, '__iter__': lays, 'set_geometry': setgeo,
+                   'set_static_pressure': (lambda *a_, **k_: None), 'pressure_above': X.ZERO, 'tides_on': False, '_tides_on': False, '_mass': None, '_radius': None, '_volume': None, '_name': 'world', 'name': 'world'})
+        it4 = Interp(repo, hooks={'global': glob_hook, 'expr': expr_hook2, 'branch': (lambda itp, st, v, fr: (False if isinstance(v, Opaque) else None))}, max_depth=6)
+        try:
+            it4.call(mlw, wre, [], {'initial_init': True, 'reinit_geometry': True}, self_obj=wobj)
+            got = seen.get('args', (None, None))[1] if len(seen.get('args', ())) > 1 else seen.get('kwargs', {}).get('mass')
+        except Exception as ex:           # fail closed: an interpretation problem here is an analysis error of this rule
+            raise AnalysisError(f'LayeredWorld.reinit could not be interpreted on the abstract world: {ex}')
+        ref = Mcfg if configured else wm[0] + wm[1] + wm[2]
+        ok = got is not None and d.equal(X.lift(got), ref)
+        chk.ob('R16.3', 'LayeredWorld.reinit: the world mass handed to the geometry is ' + ('the configured mass' if configured else 'the sum of the layer masses when the configuration states none'), ok,
+               f'passes {X.show(X.lift(got)) if got is not None else None}', mlw.where(wre), key=f'R16.3|LayeredWorld.reinit|configured={configured}', method='interpretation on an abstract world + GF(p^2) PIT')
 
     # ------------------------------------------------------------------ R16.4 scaling and names
     scaling(chk, repo, mw, d, eq)
